@@ -98,7 +98,7 @@ func ChildMain(c *Check, args []string) {
 		if pf != nil {
 			pf.WriteAt([]byte(fmt.Sprintf("%020d\n", i)), 0)
 		}
-		t := &T{fam: fam, idx: i, Tier: tier}
+		t := &T{fam: fam, idx: i, Tier: tier, wantSample: len(so.Samples) < 2}
 		func() {
 			defer func() {
 				if r := recover(); r != nil {
